@@ -457,6 +457,47 @@ pub fn run() -> Report {
     for p in parts {
         rep.merge(p);
     }
+    // no fault at all: the first clause (exit 0 => every output file under its final name, no *.tmp) for every accepted shape
+    // of the range options, including ranges that contain no block at all (an incremental dump when nothing new has arrived)
+    {
+        let wk = Worker::new(&root, 802);
+        let tip = chain.blocks.len() as u64 - 1;
+        if let Err(m) = wk.materialise(&small) {
+            rep.machinery(m);
+        } else {
+            let ranges: Vec<(Option<u64>, Option<u64>)> = vec![(None, None), (Some(tip), None), (Some(tip + 1), None), (Some(tip + 1), Some(tip + 4)), (Some(tip + 9), Some(tip + 10)), (Some(1), Some(tip + 9)), (None, Some(1)), (Some(0), Some(1)), (Some(tip - 1), Some(tip))];
+            for cb in CBS {
+                for (s, e) in &ranges {
+                    for verify in [false, true] {
+                        let spec = RunSpec::new("bitcoin", cb).range(*s, *e).verify(verify);
+                        let r = wk.run(&spec);
+                        rep.states += 1;
+                        rep.transitions += 1;
+                        rep.count("fault-free-option-shapes", 1);
+                        rep.nontrivial.insert(h8(format!("nofault{}{:?}{:?}{}", cb, s, e, verify).as_bytes()));
+                        let stems: Vec<&str> = match cb {
+                            "csvdump" => vec!["blocks-", "transactions-", "tx_in-", "tx_out-"],
+                            "unspentcsvdump" => vec!["unspent-"],
+                            _ => vec!["balances-"],
+                        };
+                        let finals: Vec<&String> = r.files.keys().filter(|k| k.ends_with(".csv")).collect();
+                        let bad = if r.code == Some(0) {
+                            if let Some(t) = r.files.keys().find(|k| k.ends_with(".tmp")) {
+                                Some(("exit-0-but-tmp-file-remains".to_string(), format!("{} remains; folder {:?}", t, r.files.keys().collect::<Vec<_>>())))
+                            } else {
+                                stems.iter().find(|st| !finals.iter().any(|f| f.starts_with(**st))).map(|st| ("exit-0-but-output-file-missing".to_string(), format!("no final-named {}*.csv; folder {:?}", st, r.files.keys().collect::<Vec<_>>())))
+                            }
+                        } else {
+                            finals.first().map(|f| ("failed-run-leaves-final-named-file".to_string(), format!("exit {:?} but {} exists", r.code, f)))
+                        };
+                        if let Some((sig, d)) = bad {
+                            rep.disagree(&format!("{}:no-fault", sig), format!("{} -s {:?} -e {:?} verify {} (tip {}): {}", cb, s, e, verify, tip, d), replay_case(&small, &spec, json!({"exit 0": "final-named files, no tmp"}), &r, &wk.dir));
+                        }
+                    }
+                }
+            }
+        }
+    }
     let _ = std::fs::remove_dir_all(&root);
     let _ = (coinbase(0, 0, vec![]), pay(0, 0), COIN_VALUE, chain);
     rep
